@@ -28,8 +28,10 @@ def r1(ctx):
               (partial or exact or [None])[0].where() if (partial or exact) else None, sample=[len(partial), len(exact)])
     rz = one(b.calls(r'Vec::resize$'), 'buffer.resize')
     ctx.guard(b, rz, 'size-checked', within, key='read_json|resize|size-checked')
-    a = [N(x) for x in b.call_args(rz)]
-    ctx.check('read_json|resize|size', re.match(r'^msg_size$|^\(Result::branch\(Result::map_err\(T::try_into\(msg_size\)', a[1]) is not None or 'msg_size' in a[1], 'resized to `%s`' % a[1][:100], rz.where(), sample=a[1][:120])
+    a = [S(x) for x in b.call_args(rz)]
+    # name-free: the new length is the u64 read from the stream (converted to usize), nothing else
+    ctx.check('read_json|resize|size', re.match(r'^(\(Result::branch\(Result::map_err\(T::try_into\()?\(Result::branch\(\(ReadU64::poll\(.*AsyncReadExt::read_u64\(stream\).* as Continue\)\.0', a[1]) is not None,
+              'resized to `%s`' % a[1][:100], rz.where(), sample=a[1][:120])
     rex = one(b.calls(r'AsyncReadExt::read_exact$'), 'read_exact')
     ctx.guard(b, rex, 'size-checked', within, key='read_json|read_exact|size-checked')
     ctx.check('read_json|payload-after-resize', must_pass_block_from(b, 0, rex.bb, [rz.bb]), 'payload read before the buffer is sized')
@@ -40,8 +42,10 @@ def r1(ctx):
     w = P.body(SK + '::write_json::{closure#0}')
     wu = one(w.calls(r'AsyncWriteExt::write_u64$'), 'write_u64')
     wa = one(w.calls(r'AsyncWriteExt::write_all$'), 'write_all')
-    ctx.check('write_json|length-of-payload', re.match(r'^\(Vec::len\(bytes\) as u64\)$', N(w.call_args(wu)[1])) is not None and re.match(r'^(Vec::deref\()?bytes\)?$', N(w.call_args(wa)[1])) is not None,
-              'write_json writes %s then %s' % (N(w.call_args(wu)[1]), N(w.call_args(wa)[1])), wu.where(), sample=[N(w.call_args(wu)[1]), N(w.call_args(wa)[1])])
+    ln, pl = S(w.call_args(wu)[1]), S(w.call_args(wa)[1])
+    m = re.match(r'^\(Vec::len\((.*)\) as u64\)$', ln)
+    ctx.check('write_json|length-of-payload', m is not None and pl in (m.group(1), 'Vec::deref(%s)' % m.group(1)) and 'ser::to_vec(value)' in pl,
+              'write_json writes %s then %s' % (ln, pl), wu.where(), sample=[ln, pl])
     ctx.check('write_json|length-first', w.can_reach(wu.bb, wa.bb) and not w.can_reach(wa.bb, wu.bb), 'length is not written before the payload')
 
 
@@ -57,7 +61,7 @@ def r2(ctx):
     d = P.body('<ntp_proto::time_types::NtpDuration as serde_core::de::Deserialize>::deserialize')
     fs = some(d.calls(r'NtpDuration::from_seconds$'), 'from_seconds in deserialize')
     src = S(d.call_args(fs[0])[0])
-    ctx.check('NtpDuration|deserialize', re.search(r'deserialize\(deserializer\)', src) is not None and d.locals[[i for i, l in enumerate(d.locals) if l.get('name') == 'seconds'][0]]['ty'] == 'f64', 'deserialises from %s' % src[:100], fs[0].where(), sample=src[:140])
+    ctx.check('NtpDuration|deserialize', re.search(r'deserialize\(deserializer\)', src) is not None and [d.callee(c).get('self_ty') for c in d.calls(r'Deserialize::deserialize$')] == ['f64'], 'deserialises from %s' % src[:100], fs[0].where(), sample=src[:140])
     cs = P.body('<ntpd::daemon::server::Counter as serde_core::ser::Serialize>::serialize')
     c = some(cs.calls(r'Serializer::serialize_u64$'), 'serialize_u64')
     ctx.check('Counter|serialize', S(cs.call_args(c[0])[1]) == 'Counter::get(self)', 'serialises %s' % S(cs.call_args(c[0])[1]), c[0].where(), sample=S(cs.call_args(c[0])[1]))
